@@ -34,8 +34,6 @@ theorem details_size {M : Nat} {req : Option Nat} {sz al : Nat} {d : Details}
   all_goals first | (cases h; done) | skip
   all_goals (injection h with h; subst h; rename_i hh; simp only [checkedAdd] at hh; split at hh <;> simp_all)
 
-theorem bindO_ok' {α β : Type} (s : St) (a : α) (f : St → α → St × Outcome β) : bindO (s, Outcome.ok a) f = f s a := rfl
-
 theorem bypass_eq (limit : Option Nat) (ab sz base : Nat) :
     bypassMin limit ab sz base =
       match limit with
@@ -114,7 +112,7 @@ theorem gen_slow_loop (E : Nat) (a : Arena) (sz al : Nat) (rem r : Option Nat) (
         have hg : Gen.Fn.new_chunk_memory_details a.M (some base) ⟨sz, al⟩ = .ok (some d) := by
           generalize Gen.Fn.new_chunk_memory_details a.M (some base) ⟨sz, al⟩ = g at hd
           cases g <;> simp_all [reify, Outcome.sim]
-        simp only [hg, pureO, bindO_ok', gen_chunk_fits_under_limit]
+        simp only [hg, pureO, bindO_ok, gen_chunk_fits_under_limit]
         by_cases hfit : fitsUnderLimit rem d = true
         · simp only [hfit, if_true]
           have hnc := gen_new_chunk E a.M d sz al (a.cur E) s hM (details_size hm)
@@ -142,7 +140,7 @@ theorem gen_slow_loop (E : Nat) (a : Arena) (sz al : Nat) (rem r : Option Nat) (
         have hg : Gen.Fn.new_chunk_memory_details a.M (some base) ⟨sz, al⟩ = .ok none := by
           generalize Gen.Fn.new_chunk_memory_details a.M (some base) ⟨sz, al⟩ = g at hd
           cases g <;> simp_all [reify, Outcome.sim]
-        simp only [hg, pureO, bindO_ok']
+        simp only [hg, pureO, bindO_ok]
         exact simS_refl _
       | panic =>
         rw [hm] at hd
@@ -167,7 +165,7 @@ theorem gen_slow_loop (E : Nat) (a : Arena) (sz al : Nat) (rem r : Option Nat) (
         simp only [hg, pureO, bindO]
         exact simS_refl _
     rw [slowLoop_succ, bypass_eq]
-    simp only [Gen.Fn.alloc_layout_slow.loop_1, gen_allocation_limit, gen_allocated_bytes, pureO, bindO_ok', hsa]
+    simp only [Gen.Fn.alloc_layout_slow.loop_1, gen_allocation_limit, gen_allocated_bytes, pureO, bindO_ok, hsa]
     cases hl : a.limit with
     | none =>
       simp only [Bool.or_false]
@@ -240,7 +238,7 @@ theorem gen_alloc_layout_slow (E sz al : Nat) (s : St) (hE : EnvOK E) (h : Arena
   have hfs : FOOTER_SIZE ≤ (s.a.cur E).size := c5
   have hfs' : ¬ (s.a.cur E).size < FOOTER_SIZE := by omega
   simp only [Gen.Fn.alloc_layout_slow, Rs.alloc_layout_slow, reifyS, allocSlow, gen_allocation_limit_remaining, pureO,
-    bindO_ok', hfs, hfs', if_true, if_false, checkedMul_two (show (s.a.cur E).size - FOOTER_SIZE ≤ 2 ^ 63 - 48 by omega)]
+    bindO_ok, hfs, hfs', if_true, if_false, checkedMul_two (show (s.a.cur E).size - FOOTER_SIZE ≤ 2 ^ 63 - 48 by omega)]
   generalize Gen.Fn.alloc_layout_slow.loop_1 E s.a.M ⟨sz, al⟩ (limitRemaining s.a E) (limitRemaining s.a E) (s.a.cur E)
     ⟨(s.a.cur E).size, (s.a.cur E).align⟩ (max sz DEFAULT_CHUNK_SIZE_WITHOUT_FOOTER) (((s.a.cur E).size - FOOTER_SIZE) * 2) 70
     (max (((s.a.cur E).size - FOOTER_SIZE) * 2) (max sz DEFAULT_CHUNK_SIZE_WITHOUT_FOOTER)) s = g at hloop ⊢
@@ -262,7 +260,7 @@ theorem gen_alloc_layout_slow (E sz al : Nat) (s : St) (hE : EnvOK E) (h : Arena
     subst hgo
     have hdvd : c.data % al = 0 := Nat.mod_eq_zero_of_dvd (Nat.dvd_trans hd.align_al hfc.al_dvd)
     have hal0 : al ≠ 0 := by have := hA.pos; omega
-    simp only [bindO_ok', hal0, ne_eq, not_false_eq_true, if_true, hdvd, beq_self_eq_true, set_current_footer]
+    simp only [bindO_ok, hal0, ne_eq, not_false_eq_true, if_true, hdvd, beq_self_eq_true, set_current_footer]
     -- the fast path on the arena with the fresh chunk in front
     have hfh := fresh_head hfc
     let s2 : St := { gs with a := { gs.a with chunks := c :: gs.a.chunks } }
